@@ -48,8 +48,21 @@ def relax_all(db, ctx):
     loops = list(_loops(f))
     ctx.ob("connect_node|one-loop", len(loops) == 1, "connect_node has %d for-loops (expected exactly 1)" % len(loops), fn=f)
     for n, (it, pat, body), ps in loops:
+        it = resolve_let(db, f, it)       # `let candidates = self.ends[begin].iter()...; for .. in candidates`
         names, base = _chain(it)
         base = resolve_let(db, f, base)   # `let row = &self.ends[begin]; for .. in row.iter()` is the same loop
+        # a `.filter(..)` whose predicate is exactly is_connected_to_bos() is the same skip as the `continue` guard
+        filt_ok = True
+        cur_ = peel(it)
+        n_filter = 0
+        while isinstance(cur_, dict) and cur_.get("k") == "MethodCall":
+            if cur_["method"] == "filter":
+                n_filter += 1
+                clo = peel(cur_["args"][0]) if cur_["args"] else {}
+                bodyc = peel(clo.get("body", {})) if clo.get("k") == "Closure" else {}
+                filt_ok = filt_ok and bodyc.get("k") == "MethodCall" and bodyc.get("method") == "is_connected_to_bos"
+            cur_ = peel(cur_["recv"])
+        names = [x for x in names if not (x == "filter" and filt_ok)]
         base_ok = base.get("k") == "Index" and peel(base["e"]).get("k") == "Field" and peel(base["e"]).get("name") == "ends"
         idx_ok = base_ok and local_name(base["i"]) is not None
         chain_ok = set(names) <= {"iter", "enumerate"} and "iter" in names
@@ -64,6 +77,8 @@ def relax_all(db, ctx):
         brk = [x for x, _ in walk(body) if x.get("k") in ("Break", "Ret")]
         conts = [(x, p2) for x, p2 in walk(body) if x.get("k") == "Continue"]
         ctx.ob("connect_node|no-break", not brk, "loop body contains %d break/return (must be 0)" % len(brk), fn=f)
+        if not conts and n_filter == 1 and filt_ok:
+            ctx.ob("connect_node|continue-guard", True, "unreachable predecessors are skipped by `.filter(|..| l.is_connected_to_bos())` on the row iterator", fn=f)
         for c, p2 in conts:
             pcs = path_conditions(c["id"], body) or []
             at = [(a, pol) for cnd, pol in pcs if isinstance(cnd, dict) for a, pol in atoms(cnd, pol)]
@@ -126,8 +141,9 @@ def recurrence(db, ctx):
         for c, _ in walk(body):
             if is_call(c) and path_ends(callee(c), "ConnectionMatrix::cost"):
                 a = call_args(c)
-                r0 = peel(unwrap_try(peel_casts(a[1])))
-                r1 = peel(unwrap_try(peel_casts(a[2])))
+                from ..db import deref_let
+                r0 = deref_let(peel(unwrap_try(peel_casts(a[1]))))
+                r1 = deref_let(peel(unwrap_try(peel_casts(a[2]))))
                 own0 = peel(r0.get("recv", {})) if r0.get("k") == "MethodCall" else {}
                 own1 = peel(r1.get("recv", {})) if r1.get("k") == "MethodCall" else {}
                 ok = own0.get("lid") in loopvars and ix.bindings(f).get(own1.get("lid"), ("",))[0] == "param"
@@ -259,12 +275,31 @@ def order(db, ctx):
                         if a2.get("k") == "MethodCall" and a2.get("method") == "has_previous_node" and pl is False:
                             ok_skip = True
     ctx.ob("build_lattice|skip-unreachable", ok_skip, "positions with !has_previous_node(pos) are skipped with continue: %s" % ok_skip, fn=f)
-    # Node::new begin arg from loop position
+    # Node::new begin arg from loop position (possibly inside a private helper called from the loop body)
+    n_nodes = 0
     for c, p2 in walk(body):
         if is_call(c) and path_ends(callee(c), "inner::Node::new"):
             a0 = peel_casts(c["args"][0])
+            n_nodes += 1
             ctx.ob("build_lattice|node-begin=position", a0.get("lid") == pos_lid,
                    "Node::new begin argument `%s` is the loop position variable: %s" % (render(c["args"][0]), a0.get("lid") == pos_lid), fn=f, site=c.get("sp"))
+    if n_nodes == 0:
+        for call, ps2, g in db.private_helpers(f):
+            if not any(x is call for x, _ in walk(body)):
+                continue
+            plist = g.info.get("params") or []
+            for c, _ in walk(g.hir):
+                if is_call(c) and path_ends(callee(c), "inner::Node::new"):
+                    a0 = peel_casts(c["args"][0])
+                    idx = next((i for i, p_ in enumerate(plist) if p_.get("lid") == a0.get("lid")), None)
+                    args = call_args(call)
+                    ok_h = idx is not None and idx < len(args) and peel_casts(args[idx]).get("lid") == pos_lid
+                    n_nodes += 1
+                    ctx.ob("build_lattice|node-begin=position", ok_h,
+                           "Node::new (in helper %s) takes begin from parameter #%s, which the loop passes as `%s` — the loop position variable: %s" % (
+                               g.short(), idx, render(args[idx]) if idx is not None and idx < len(args) else None, ok_h), fn=g, site=c.get("sp"))
+    if n_nodes == 0:
+        raise AnchorMissing("build_lattice: dictionary-node construction")
     # connect_eos after loop, with ?
     eos = [(c, p2) for c, p2 in walk(f.hir) if is_call(c) and path_ends(callee(c), "Lattice::connect_eos")]
     ok_eos = False
